@@ -149,7 +149,7 @@ def SchedMade (_k : Nat) (r : Resp) : Prop := r.cause ≠ .worker ∧ r.tok = 0 
 
 theorem complete_sched {P : Nat → Resp → Prop} {h : Hints} {s s' : State} {tid : Nat} {r : Resp} {bw : Bool}
     (hh : complete h s tid r bw = .ok s') (hp : ∀ k, P k r) : RT P s s' :=
-  (complete_rt hh).mono (fun k r' ⟨e, _⟩ => e ▸ hp k)
+  (complete_rt hh).mono (fun k _ ⟨e, _⟩ => e ▸ hp k)
 
 theorem removeOp_rt {h : Hints} {s s' : State} {o : Nat} (hh : removeOp h s o = .ok s') : RT SchedMade s s' := by
   rcases removeOp_ok hh with ⟨_, rfl⟩ | ⟨op, t, s1, t1, _, _, h1, h2, rfl⟩
